@@ -79,6 +79,16 @@ def oracle(ck, sc, rec, label):
                     if not (ph == 'train' and before['closure']):  # a closure optimiser that never calls its closure: nothing to average
                         ck.fail(f'metric_mean/not-evaluated', f'metric m{i} was not evaluated on every {ph} batch of the epoch', inp)
                     continue
+                import math
+                flat = [v[-1] for v in per_batch]
+                if any(not math.isfinite(x) for v in per_batch for x in v) or not math.isfinite(entry):
+                    # undefined / infinite metric values: the entry is still recorded, NaN compared as NaN
+                    want = sum(flat) / len(draws)
+                    same = (math.isnan(want) and math.isnan(entry)) or want == entry
+                    if not same and not any(len(v) > 1 for v in per_batch):
+                        ck.fail(f'metric_mean/{ph}-nonfinite', f'{ph}__m{i} entry for non-finite metric values is not their mean', inp,
+                                expected=repr(want), actual=repr(entry))
+                    continue
                 cands = [sum(Fraction(v[-1]) for v in per_batch) / len(draws), sum(Fraction(v[0]) for v in per_batch) / len(draws)]
                 if not any(close(c, entry) for c in cands):
                     multi = any(len(v) > 1 for v in per_batch)
@@ -92,7 +102,7 @@ def oracle(ck, sc, rec, label):
         sns = per_fit.get(fi, [])
         k = len(sns)
         op = sc['ops'][fi]
-        stops = [it['when'] for cb in op['cbs'] for it in cb if it['act']['kind'] == 'stop' and it['when'] is not None and it['when'] <= m]
+        stops = T.stop_epochs(op, m)
         exp_k = min(stops) if stops else m
         if [s['local'] for s in sns] != list(range(1, k + 1)) or k > m:
             ck.fail('local_epoch_run/values', 'local epoch did not take the values 1..k (k <= max_epochs) during a fit call',
@@ -130,7 +140,10 @@ def regression_scenarios():
                ops=[{'op': 'fit', 'max_epochs': 3, 'cbs': [[], [{'when': 2, 'act': {'kind': 'set_nb', 'phase': 'train', 'n': 2}}]] + rec_cb,
                      'cb_order': [0, 1, 0, 2]},
                     {'op': 'fit', 'max_epochs': 2, 'cbs': [[]] + rec_cb, 'cb_order': [0, 0, 1], 'cb_container': 'tuple'}])
-    return [('fixed-F11-fit0', f11, True), ('fixed-F6-closure-metric', f6, True), ('repeated-callback-object', dup, True)]
+    nan = dict(base, nbt=2, opt={'kind': 'sgd', 'lr': 0.25}, metric_special={'0': [None, 'nan', None, None, 'inf', 'zero']},
+               ops=[{'op': 'fit', 'max_epochs': 3, 'cbs': rec_cb}])
+    return [('fixed-F11-fit0', f11, True), ('fixed-F6-closure-metric', f6, True), ('repeated-callback-object', dup, True),
+            ('nan-metric', nan, False)]
 
 
 def main():
@@ -160,8 +173,15 @@ def main():
         if i % 6 == 5:
             sc = T.gen_scenario(r, opt_kinds=('adam', 'lbfgs'), cb_actions=('stop', 'set_nb'), lids=(0, 1, 4))
             camp.add(f'trace#{i}', sc, exact=False)
+        elif i % 6 == 2:
+            # custom metrics returning NaN / inf / 0 / negative values in some calls: every series still gets one entry per epoch
+            # of its phase (values are not representable in the rational model: lengths, counters and events are compared)
+            sc = T.gen_scenario(r, opt_kinds=('sgd', 'script'), cb_actions=('stop', 'set_nb', 'real_stop', 'real_report'), lids=(0, 1),
+                                nmetrics=(1, 2), metric_special=True, dup_callbacks=(i % 4 == 0))
+            camp.add(f'special#{i}', sc, exact=False)
         else:
-            sc = T.gen_scenario(r, opt_kinds=('sgd', 'script', 'sgd'), cb_actions=('stop', 'set_nb', 'stop', 'set_nb', 'set_opt'),
+            sc = T.gen_scenario(r, opt_kinds=('sgd', 'script', 'sgd'),
+                                cb_actions=('stop', 'set_nb', 'stop', 'set_nb', 'set_opt') + (('real_monitor', 'real_stop') if i % 7 == 3 else ()),
                                 between_actions=('set_nb',) if i % 4 == 0 else (), lids=(0, 1, 0, 3), dup_callbacks=(i % 3 == 1))
             camp.add(f'exact#{i}', sc, exact=True)
     camp.correspond()
